@@ -64,10 +64,7 @@ broadcast use {location_hash::axiom_function_location_obeys_key_model, location_
 proof fn vf_canary_loc_client() ensures false {}
 } // mod loc_client
 
-proof fn vf_canary_root() ensures false {
-    // (padding: tools/verdict.py attributes diagnostics by byte offset into a char-indexed text; the em dashes in
-    // the included headers shift the position of this canary's error past the end of a one-line fn)
-}
+proof fn vf_canary_root() ensures false {}
 
 } // verus!
 
